@@ -1,12 +1,208 @@
-(* C08 — IPv4 reassembly returns exactly the original datagram. (work in progress) *)
-From Coq Require Import ZArith Bool List.
-From NP Require Import Model.Frag Proofs.FragP.
+(* C08 — IPv4 reassembly returns exactly the original datagram.
+   Model: Model/Frag.v (fragmentation/{fragmentation,reassembler,frag_heap}.go, container/heap as
+   used there, hash.go, the fragment branch of ipv4.HandlePacket).  This file contains only the
+   property theorems, each closed by [exact] of a lemma from Proofs/Frag*P.v.
+
+   Clause of the property text                                   -> theorem
+   "in any order, with duplicates and with overlaps that agree on content, the payload handed up
+    is byte-for-byte the original datagram, and only once a complete set (including the last
+    fragment) has been received"                                 -> C08_reassembly_exact (through
+        Fragmentation.Process), C08_reassembly_exact_reassembler (reassembler.process alone),
+        C08_reassemble_tie_independent (independence from the heap's tie order)
+   "incomplete sets deliver nothing"                             -> C08_incomplete_returns_nothing,
+        C08_returns_only_when_done (all inputs)
+   "fragments of different datagrams are never mixed"            -> C08_ids_frame, C08_ids_local,
+        C08_ids_isolated, C08_reassembly_exact_interleaved; key level: C08_key_respects_tuple,
+        C08_key_range (the 32-bit key cannot be injective over the 72-bit tuple: documented limit)
+   "fragments older than the reassembly timeout are not combined with newer ones"
+                                                                 -> C08_timeout_discards,
+        C08_timeout_separates
+   memory accounting / eviction                                  -> C08_size_accounting,
+        C08_eviction_reaches_low
+   robustness for all inputs                                     -> C08_process_never_panics;
+        C08_process_error_reachable documents the input on which the unrepaired code panicked
+   call site in ipv4.HandlePacket                                -> C08_ipv4_frag_args,
+        C08_ipv4_empty_fragment
+   C08_example: the hypotheses are satisfiable by a non-trivial history.
+
+   Datagram sizes: the theorems hold for 1 <= |D| <= 65535, which includes the IPv4 maximum
+   payload 65515.  Calls are sequential; time.Now() is the explicit [c_now] of each call. *)
+From Coq Require Import ZArith Bool List Permutation.
+From NP Require Import Model.Frag Proofs.FragHeapP Proofs.FragReasmP Proofs.FragP Proofs.FragTopP Proofs.FragExactP.
 Import ListNotations.
 Open Scope Z_scope.
 
+(* ---- exact reassembly *)
+Theorem C08_reassembly_exact : forall D id f cs,
+  1 <= zlen D <= 65535 ->
+  FInv f -> lookup id (f_rs f) = None ->
+  Forall (fun c => c_id c = id /\ frag_of D (frag_in c)) cs ->
+  (forall c0, hd_error cs = Some c0 -> Forall (fun c => c_now c - c_now c0 <= f_timeout f) cs) ->
+  f_size f + bytes_in cs <= f_high f ->
+  forall k, (k < length cs)%nat ->
+    (forall j, (j < k)%nat -> ~ covers (firstn (S j) (map frag_in cs)) (zlen D)) ->
+    (covers (firstn (S k) (map frag_in cs)) (zlen D) -> nth k (snd (run f cs)) dout = (D, true, false)) /\
+    (~ covers (firstn (S k) (map frag_in cs)) (zlen D) -> nth k (snd (run f cs)) dout = ([], false, false)).
+Proof. exact reassembly_exact. Qed.
+Print Assumptions C08_reassembly_exact.
+
+(* the initial state of the theorem above is satisfiable by every fresh Fragmentation *)
+Theorem C08_fresh_state_ok : forall high low timeout, FInv (newFragmentation high low timeout).
+Proof. exact FInv_new. Qed.
+Print Assumptions C08_fresh_state_ok.
+
+Theorem C08_reassembly_exact_reassembler : forall D id now fs,
+  1 <= zlen D <= 65535 -> Forall (frag_of D) fs ->
+  forall k, (k < length fs)%nat ->
+    (forall j, (j < k)%nat -> ~ covers (firstn (S j) fs) (zlen D)) ->
+    let o := nth k (run_r (newReassembler id now) fs) dpres in
+    p_panic o = false /\ p_err o = false /\
+    (covers (firstn (S k) fs) (zlen D) -> p_done o = true /\ p_res o = D) /\
+    (~ covers (firstn (S k) fs) (zlen D) -> p_done o = false /\ p_res o = []).
+Proof. exact reassembly_exact_reassembler. Qed.
+Print Assumptions C08_reassembly_exact_reassembler.
+
+Theorem C08_reassemble_tie_independent : forall D, 1 <= zlen D <= 65535 ->
+  forall h1 h2, Permutation h1 h2 -> heap_ok h1 (length h1) -> heap_ok h2 (length h2) ->
+  Forall (slice_of D) h1 ->
+  (forall x, 0 <= x < zlen D -> exists it, In it h1 /\ it_covers it x) ->
+  reassemble h1 = reassemble h2.
+Proof. exact reassemble_tie_independent. Qed.
+Print Assumptions C08_reassemble_tie_independent.
+
+Theorem C08_reassembly_exact_interleaved : forall D i high low timeout cs,
+  1 <= zlen D <= 65535 ->
+  Forall call_ok cs -> bytes_in cs <= high ->
+  let ci := filter (on_id i) cs in
+  Forall (fun c => frag_of D (frag_in c)) ci ->
+  (forall c0, hd_error ci = Some c0 -> Forall (fun c => c_now c - c_now c0 <= timeout) ci) ->
+  let outs := outs_of i cs (snd (run (newFragmentation high low timeout) cs)) in
+  forall k, (k < length ci)%nat ->
+    (forall j, (j < k)%nat -> ~ covers (firstn (S j) (map frag_in ci)) (zlen D)) ->
+    (covers (firstn (S k) (map frag_in ci)) (zlen D) -> nth k outs dout = (D, true, false)) /\
+    (~ covers (firstn (S k) (map frag_in ci)) (zlen D) -> nth k outs dout = ([], false, false)).
+Proof. exact reassembly_exact_interleaved. Qed.
+Print Assumptions C08_reassembly_exact_interleaved.
+
+(* ---- incomplete sets *)
+Theorem C08_incomplete_returns_nothing : forall D id f cs,
+  1 <= zlen D <= 65535 ->
+  FInv f -> lookup id (f_rs f) = None ->
+  Forall (fun c => c_id c = id /\ frag_of D (frag_in c)) cs ->
+  (forall c0, hd_error cs = Some c0 -> Forall (fun c => c_now c - c_now c0 <= f_timeout f) cs) ->
+  f_size f + bytes_in cs <= f_high f ->
+  ~ covers (map frag_in cs) (zlen D) ->
+  forall k, (k < length cs)%nat -> nth k (snd (run f cs)) dout = ([], false, false).
+Proof. exact incomplete_returns_nothing. Qed.
+Print Assumptions C08_incomplete_returns_nothing.
+
+Theorem C08_returns_only_when_done : forall high low timeout cs, Forall call_ok cs ->
+  Forall only_when_done (snd (run (newFragmentation high low timeout) cs)).
+Proof. exact returns_only_when_done. Qed.
+Print Assumptions C08_returns_only_when_done.
+
+(* ---- isolation of ids (no eviction: the memory limit is not reached) *)
+Theorem C08_ids_frame : forall f c f' out j, FInv f -> call_ok c -> step f c = (f', out) ->
+  f_size f + zlen (c_pl c) <= f_high f -> j <> c_id c ->
+  lookup j (f_rs f') = lookup j (f_rs f).
+Proof. exact ids_frame. Qed.
+Print Assumptions C08_ids_frame.
+
+Theorem C08_ids_local : forall f g c f' g' out out', FInv f -> FInv g -> call_ok c ->
+  lookup (c_id c) (f_rs f) = lookup (c_id c) (f_rs g) -> f_timeout f = f_timeout g ->
+  f_size f + zlen (c_pl c) <= f_high f -> f_size g + zlen (c_pl c) <= f_high g ->
+  step f c = (f', out) -> step g c = (g', out') ->
+  out = out' /\ lookup (c_id c) (f_rs f') = lookup (c_id c) (f_rs g').
+Proof. exact ids_local. Qed.
+Print Assumptions C08_ids_local.
+
+Theorem C08_ids_isolated : forall i high low timeout cs, Forall call_ok cs -> bytes_in cs <= high ->
+  outs_of i cs (snd (run (newFragmentation high low timeout) cs)) =
+  snd (run (newFragmentation high low timeout) (filter (on_id i) cs)).
+Proof. exact ids_isolated. Qed.
+Print Assumptions C08_ids_isolated.
+
+Theorem C08_key_respects_tuple : forall iv h1 h2,
+  (forall i, In i [4; 5; 9; 12; 13; 14; 15; 16; 17; 18; 19]%nat -> byte_at h1 i = byte_at h2 i) ->
+  ipv4FragmentHash iv h1 = ipv4FragmentHash iv h2.
+Proof. exact key_respects_tuple. Qed.
+Print Assumptions C08_key_respects_tuple.
+
+Theorem C08_key_range : forall iv h, 0 <= ipv4FragmentHash iv h < 2^32.
+Proof. exact key_range. Qed.
+Print Assumptions C08_key_range.
+
+(* ---- timeouts *)
+Theorem C08_timeout_discards : forall f c r0 f' out, FInv f -> call_ok c ->
+  lookup (c_id c) (f_rs f) = Some r0 -> f_timeout f < c_now c - r_ctime r0 ->
+  step f c = (f', out) ->
+  out = conv (snd (rprocess (newReassembler (c_id c) (c_now c)) (c_first c) (c_last c) (c_more c) (c_pl c))).
+Proof. exact timeout_discards. Qed.
+Print Assumptions C08_timeout_discards.
+
+Theorem C08_timeout_separates : forall high low timeout cs c, 0 <= timeout ->
+  Forall call_ok cs -> call_ok c ->
+  let f := fst (run (newFragmentation high low timeout) cs) in
+  forall f' res done p, step f c = (f', (res, done, p)) -> done = true ->
+  exists t0 H, fst (reassemble H) = ROk res /\
+    created_by (cs ++ [c]) (c_id c) t0 /\
+    forall it, In it H -> from_hist (cs ++ [c]) (c_id c) t0 timeout it.
+Proof. exact timeout_separates. Qed.
+Print Assumptions C08_timeout_separates.
+
+(* ---- memory accounting *)
+Theorem C08_size_accounting : forall high low timeout cs, Forall call_ok cs ->
+  let f := fst (run (newFragmentation high low timeout) cs) in
+  f_size f = sum_sizes (f_rs f) /\ f_size f = stored_bytes (f_rs f) /\ 0 <= f_size f /\
+  NoDup (map r_id (f_rs f)) /\
+  (cs <> [] -> f_size f <= f_high f \/ f_size f <= f_low f \/ f_rs f = []).
+Proof. exact size_accounting. Qed.
+Print Assumptions C08_size_accounting.
+
+Theorem C08_eviction_reaches_low : forall f, FInv f ->
+  let f' := evict_loop f (rev (f_rs f)) in
+  FInv f' /\ (f_size f' <= f_low f' \/ f_rs f' = []).
+Proof. exact eviction_reaches_low. Qed.
+Print Assumptions C08_eviction_reaches_low.
+
+(* ---- robustness *)
+Theorem C08_process_never_panics : forall high low timeout cs, Forall call_ok cs ->
+  Forall no_panic (snd (run (newFragmentation high low timeout) cs)).
+Proof. exact process_never_panics. Qed.
+Print Assumptions C08_process_never_panics.
+
 Theorem C08_process_error_reachable :
+  r_deleted bad_r2 = Z.of_nat (length (r_holes bad_r2)) /\
+  fst (reassemble (heap_push (r_heap bad_r2) (mkFrag 0 []))) = RErr /\
   p_err (snd (rprocess bad_r1 0 65535 true [])) = true /\
-  fst (reassemble (r_heap (fst (updateHoles bad_r1 0 65535 true)))) = RPanic \/
-  p_err (snd (rprocess bad_r1 0 65535 true [])) = true.
+  snd (fprocess (fst (fprocess (newFragmentation 100 50 10) 0 8 7 true [] 0)) 0 0 65535 true [] 0) = ([], false, false).
 Proof. exact process_error_reachable. Qed.
 Print Assumptions C08_process_error_reachable.
+
+(* ---- the call site *)
+Theorem C08_ipv4_frag_args : forall D fo len,
+  zlen D <= 65535 -> 0 <= fo -> fo mod 8 = 0 -> 1 <= len -> fo + len <= zlen D ->
+  let pl := slice D fo len in
+  let more := fo + len <? zlen D in
+  (more = true \/ fo <> 0) ->
+  ipv4_frag_args fo more pl = Some (fo, fo + len - 1, more, pl) /\
+  frag_of D (mkIn fo (fo + len - 1) more pl).
+Proof. exact ipv4_frag_args_spec. Qed.
+Print Assumptions C08_ipv4_frag_args.
+
+Theorem C08_ipv4_empty_fragment : ipv4_frag_args 8 true [] = Some (8, 7, true, []).
+Proof. exact ipv4_empty_fragment. Qed.
+Print Assumptions C08_ipv4_empty_fragment.
+
+(* ---- non-vacuity *)
+Theorem C08_example :
+  1 <= zlen exD <= 65535 /\
+  Forall call_ok exCalls /\ bytes_in exCalls <= 100 /\
+  Forall (fun c => frag_of exD (frag_in c)) (filter (on_id 7) exCalls) /\
+  Forall (fun c => c_now c - 0 <= 10) (filter (on_id 7) exCalls) /\
+  ~ covers (firstn 3 (map frag_in (filter (on_id 7) exCalls))) (zlen exD) /\
+  covers (map frag_in (filter (on_id 7) exCalls)) (zlen exD) /\
+  snd (run (newFragmentation 100 50 10) exCalls) =
+    [([], false, false); ([], false, false); ([], false, false); ([], false, false); (exD, true, false)].
+Proof. exact reassembly_example. Qed.
+Print Assumptions C08_example.
